@@ -142,6 +142,79 @@ pub fn gen_long_zero_source(rng: &mut Prng) -> SourceSpec {
     SourceSpec { zero_run: 16 * rng.range(150_000, 400_000) as usize, prefix: rng.bytes(16), key: rng.u64() | 1, fault: None }
 }
 
+/// For the linear generators: a seed crafted so that, after `pre_steps` native steps followed by
+/// jump() (which = 1) / long_jump() (2) / nothing (0), one whole word of the state is zero - a valid,
+/// reachable state that plain sampling meets with probability 2^-32 .. 2^-64 per operation. The
+/// generator's own linearity is used: the code under test is evaluated on the unit seeds.
+/// Returns (seed, pre_steps, which).
+pub fn gen_zero_word_after_jump_seed(rng: &mut Prng, kind: Kind) -> Option<(Vec<u8>, u32, u8)> {
+    if !kind.linear() || !kind.has_serde() {
+        return None;
+    }
+    let which: u8 = if kind.has_jump() { rng.below(3) as u8 } else { 0 };
+    let pre_steps = rng.below(4) as u32 + if which == 0 { 1 } else { 0 };
+    let wb = (kind.word_bits() / 8) as usize;
+    let n = kind.seed_len();
+    let word = rng.below((n / wb) as u64) as usize;
+    let oracle = move |seed: &[u8]| -> Option<Vec<u8>> {
+        let r = crate::gens::guard(|| -> Option<Vec<u8>> {
+            let mut g = match construct(kind, &SeedSpec::Bytes(seed.to_vec())) {
+                Ok(Constructed::Ok(g, _)) => g,
+                _ => return None,
+            };
+            for _ in 0..pre_steps {
+                if kind.word_bits() == 32 {
+                    g.next_u32();
+                } else {
+                    g.next_u64();
+                }
+            }
+            match which {
+                1 => {
+                    g.jump();
+                }
+                2 => {
+                    g.long_jump();
+                }
+                _ => {}
+            }
+            g.snapshot(crate::gens::SnapFmt::Bincode)
+        });
+        r.ok().flatten()
+    };
+    let seed = crate::craft::solve_linear_seed(rng, n, &oracle, word * wb, wb)?;
+    Some((seed, pre_steps, which))
+}
+
+/// Turn `spec` into a crafted linear-engine run: the state has a zero word right after the
+/// pre-advance (+ an initial jump / long_jump operation). Returns false (spec untouched) when the
+/// kind does not qualify or no seed was found.
+pub fn make_zero_word_run(rng: &mut Prng, spec: &mut Spec, allow_jump_op: bool) -> bool {
+    let kinds: Vec<Kind> = DET_KINDS.iter().copied().filter(|k| k.linear()).collect();
+    let kind = *rng.pick(&kinds);
+    match gen_zero_word_after_jump_seed(rng, kind) {
+        Some((seed, pre, which)) if allow_jump_op || which == 0 => {
+            spec.kind = Some(kind);
+            spec.core = None;
+            spec.seed = Some(SeedSpec::Bytes(seed));
+            spec.pre = pre;
+            spec.ops.retain(|o| !matches!(o, Op::Jump | Op::LongJump) || kind.has_jump());
+            for o in spec.ops.iter_mut() {
+                if let Op::Fill(n) = o {
+                    *n %= 97;
+                }
+            }
+            match which {
+                1 => spec.ops.insert(0, Op::Jump),
+                2 => spec.ops.insert(0, Op::LongJump),
+                _ => {}
+            }
+            true
+        }
+        _ => false,
+    }
+}
+
 /// A seed through any infallible route.
 pub fn gen_seed(rng: &mut Prng, kind: Kind) -> SeedSpec {
     if rng.chance(1, 40) {
